@@ -38,4 +38,13 @@ VARIANTS = [
         dict(file=D, old="    patterns = collections.OrderedDict([\n        ('.H.', '.3.'), ('.HH.', '.33.'), ('.HHH.', '.333.'),\n        ('.HHHH.', '.3333.'), ('.HHHHH.', '.13332.'),\n        ('.HHHHHH.', '.113322.'), ('.HHHHHHH.', '.1113222.'),\n        ('.HHHH', '.1111'), ('HHHH.', '2222.'),\n    ])\n", new="    patterns = collections.OrderedDict()\n    for length in range(1, 5):\n        patterns['.' + 'H' * length + '.'] = '.' + '3' * length + '.'\n    for length in range(5, 7):\n        caps = length - 4\n        core = length - 2 * caps\n        patterns['.' + 'H' * length + '.'] = (\n            '.' + '1' * caps + '3' * core + '2' * caps + '.'\n        )\n    patterns['.HHHH'] = '.1111'\n    patterns['HHHH.'] = '2222.'\n")]),
     dict(name='benign-generated-helix-table', expect='silent', edits=[
         dict(file=D, old="    patterns = collections.OrderedDict([\n        ('.H.', '.3.'), ('.HH.', '.33.'), ('.HHH.', '.333.'),\n        ('.HHHH.', '.3333.'), ('.HHHHH.', '.13332.'),\n        ('.HHHHHH.', '.113322.'), ('.HHHHHHH.', '.1113222.'),\n        ('.HHHH', '.1111'), ('HHHH.', '2222.'),\n    ])\n", new="    patterns = collections.OrderedDict()\n    for length in range(1, 5):\n        patterns['.' + 'H' * length + '.'] = '.' + '3' * length + '.'\n    for length in range(5, 8):\n        caps = length - 4\n        core = length - 2 * caps\n        patterns['.' + 'H' * length + '.'] = (\n            '.' + '1' * caps + '3' * core + '2' * caps + '.'\n        )\n    patterns['.HHHH'] = '.1111'\n    patterns['HHHH.'] = '2222.'\n")]),
+    dict(name='read-back-skips-unannotated-residues', expect='fire', key='PROV-read-back|sequence_from_residues', edits=[
+        dict(file=D, old="        value = first_node.get(attribute, default)\n        yield value", new="        if attribute in first_node:\n            yield first_node[attribute]")]),
+    dict(name='read-back-last-atom', expect='fire', key='PROV-read-back|sequence_from_residues', edits=[
+        dict(file=D, old="        first_name = residue_nodes[0]", new="        first_name = residue_nodes[-1]")]),
+    dict(name='partial-dssp-assignment-converted', expect='fire', key='PROV-read-back|convert_annotation', edits=[
+        dict(file=D, old="    if None not in dssp_sequence:\n        cg_sequence = list(convert_dssp_to_martini(dssp_sequence))", new="    if any(elem is not None for elem in dssp_sequence):\n        cg_sequence = list(convert_dssp_to_martini([e or 'C' for e in dssp_sequence]))")]),
+    dict(name='benign-read-back-inlined', expect='silent', edits=[
+        dict(file=D, old="        first_name = residue_nodes[0]\n        first_node = molecule.nodes[first_name]\n        value = first_node.get(attribute, default)\n        yield value",
+             new="        yield molecule.nodes[residue_nodes[0]].get(attribute, default)")]),
 ]
